@@ -81,8 +81,8 @@ static void do_all(const unsigned char *s, size_t n) {
         free(src);
     }
     /* tokenizer: qstrtok loop and qstrtokenizer, delimiter sets "," and ", \t" */
-    static const char *dels[] = {",", ", \t"};
-    for (int di = 0; di < 2; di++) {
+    static const char *dels[] = {",", ", \t", ""};         /* an empty delimiter set: the whole string is the one field */
+    for (int di = 0; di < 3; di++) {
         gbuf g = gnew(n + 1, s, n);
         head("tok", s, n); seq("tok", (unsigned char *) dels[di], strlen(dels[di]), 1);
         vh_bprintf(&b, ",\"toks\":[");
@@ -92,7 +92,7 @@ static void do_all(const unsigned char *s, size_t n) {
             for (size_t j = 0; j < strlen(t); j++) vh_bprintf(&b, "%s%d", j ? "," : "", (unsigned char) t[j]);
             vh_bprintf(&b, "]");
         }
-        vh_bprintf(&b, "]"); tail(gok(&g)); gfree(&g);
+        vh_bprintf(&b, "]"); tail(gok(&g) && off >= 0 && (size_t) off <= n); gfree(&g);
         char *src = malloc(n + 1); memcpy(src, s, n); src[n] = 0;
         qlist_t *L = qstrtokenizer(src, dels[di]);
         head("tokenizer", s, n); seq("tok", (unsigned char *) dels[di], strlen(dels[di]), 1);
